@@ -121,3 +121,9 @@ def c15(ctx):
                        "all subsets of the %d tags + absent + unknown/duplicated tags x random include/exclude lists (known, unknown, duplicated, empty, absent); "
                        "non-trivial := selection neither empty nor everything; distinct by case" % len(tags),
                        samples=[{"case": cases[5], "impl": impl[5]}])
+    # the dlint example's JSON configuration feeds the same selection (examples/dlint/config.rs): keys present or omitted
+    import props_dlint, random as _random
+    dl = props_dlint.build_dlint(ctx)
+    nsel = props_dlint.dlint_selection(ctx, dl, "C15", _random.Random(ctx.seed + 1500))
+    ctx.correspondence("dlint --rule / --config (tags, include, exclude; omitted keys) run exactly the selected rules", nsel, nsel, [],
+                       "reported codes of the dlint binary on a probe file vs the library run with the expected rule set")
